@@ -316,10 +316,11 @@ class World:
 # ------------------------------------------------------------------------------------------------------------
 # reference model: what a command must do to a tree
 class Exp:
-    __slots__ = ('kind', 'mode', 'val', 'optional', 'entry', 'alias')
+    __slots__ = ('kind', 'mode', 'val', 'optional', 'entry', 'alias', 'implied')
 
-    def __init__(self, kind, mode, val, optional=False, entry=None, alias=False):
+    def __init__(self, kind, mode, val, optional=False, entry=None, alias=False, implied=False):
         self.kind, self.mode, self.val, self.optional, self.entry, self.alias = kind, mode, val, optional, entry, alias
+        self.implied = implied      # a directory that exists only because something is installed below it
 
 
 def default_mode(w, srcfile, is_dir):
@@ -350,7 +351,7 @@ def predict_install(w, T, sel):
         rel = w.entry_rel(e)
         for p in parents(rel):
             if p not in exp:
-                exp[p] = Exp('dir', M.UNSPEC, None, optional=not must)       # implied parent: mode not specified
+                exp[p] = Exp('dir', M.UNSPEC, None, optional=not must, implied=True)       # implied parent: mode not specified
                 skipped += 1
         if e.kind == 'dir':
             if rel in T and T[rel][0] == 'dir':
@@ -398,7 +399,13 @@ class Problems(list):
         self.entries.append(entry)
 
     def first(self, n):
-        return [(k, t, e) for (k, t), e in list(zip(self, self.entries))[:n]]
+        """The first problem of each of the first n distinct keys (so that one class cannot hide the others)."""
+        out, seen = [], set()
+        for (k, t), e in zip(self, self.entries):
+            if k not in seen and len(seen) < n:
+                seen.add(k)
+                out.append((k, t, e))
+        return out
 
 
 def compare_tree(w, obs, exp, act):
@@ -408,7 +415,7 @@ def compare_tree(w, obs, exp, act):
         rid = x.entry.rule.rid if x.entry is not None else 'preexisting-or-parent'
         o = obs.get(rel)
         if o is None:
-            if not x.optional:
+            if not x.optional and not x.implied:      # (a missing implied parent: the entry below it is missing and is reported)
                 out.add('C11:%s:missing:%s' % (act, rid), 'expected %s %r is missing' % (x.kind, rel), x.entry)
             continue
         if o[0] != x.kind:
@@ -661,7 +668,7 @@ class Runner:
             self.res['fault_replaced'] += 1
             self.res['skipped_unspecified'] += 1
             exp, skipped = predict_install(w, {k: v for k, v in pre.items() if k != fault['rel']}, self.sel)
-            for key, text, ent in compare_tree(w, obs, exp, 'A').first(3):
+            for key, text, ent in compare_tree(w, obs, exp, 'A').first(6):
                 self.viol(key, text, path, entry=ent)
             return None
         if r.rc == 0:
@@ -688,7 +695,7 @@ class Runner:
             for i in range(1, len(parts)):
                 exp.setdefault('/'.join(parts[:i]), Exp('dir', M.UNSPEC, None, optional=True))
         self.res['skipped_unspecified'] += skipped
-        for key, text, ent in compare_tree(w, obs, exp, 'A').first(3):
+        for key, text, ent in compare_tree(w, obs, exp, 'A').first(6):
             self.viol(key, text, path, entry=ent)
         self.res['tree_compares'] += 1
         self.res['entries_compared'] += len(exp)
@@ -865,7 +872,7 @@ class Runner:
             exp, skipped = predict_install(w, T, self.sel)
             self.res['skipped_unspecified'] += skipped + self.tag_unspec
             problems = compare_tree(w, obs, exp, act)
-            for key, text, ent in problems.first(3):
+            for key, text, ent in problems.first(6):
                 self.viol(key, text, path, entry=ent)
             self.res['tree_compares'] += 1
             self.res['entries_compared'] += len(exp)
@@ -1474,6 +1481,10 @@ def replay(ck):
     sys.exit(1 if same or res['viol'] else 0)
 
 
+def full_g(ck):
+    return ck.n_viol == 0 and (not ck.args.only or 'G' in ck.args.only.split(','))
+
+
 def main():
     ck = Check('C11', 'model_checking')
     if ck.args.replay:
@@ -1522,6 +1533,12 @@ def main():
                        'mechanism': j['mech'], 'initial_tree': j['init'], 'aborting_situations': res['faults'], 'installs_that_stopped': res['aborts'],
                        'stopped_after_creating_directories': res['aborts_after_mkdir'], 'transitions': res['transitions'],
                        'histories': 'obstacle, install (stops), uninstall | obstacle, install (stops), obstacle removed, install'}, cap=9)
+        if j['family'] == 'G':
+            ck.sample({'job': j['id'], 'rule_kind': j['rules'][0][0], 'name_style': j['rules'][0][1], 'directory_options': M.DIRSETS[j['guess']['dirset']],
+                       'prefix': M.PREFIXES[j['prefix']], 'destdir': j['destdir'], 'umask': j['umask'], 'initial_tree': j['init'],
+                       'rules_without_install_tag': res['guess_rules'], 'entries': res['guess_entries'], 'tag_selections': [r['tags'] for r in j['runs']],
+                       'cells_entry_x_tag': res['guess_cells'], 'cells_must_be_installed': res['guess_cells_must'],
+                       'cells_must_be_left_out': res['guess_cells_left_out'], 'cells_tag_not_specified': res['guess_cells_open']}, cap=12)
         if j['family'] in ('H', 'F') and res['transitions'] > 20:
             ck.sample({'job': j['id'], 'rules': j['rules'], 'umask': j['umask'], 'prefix': M.PREFIXES[j['prefix']], 'destdir': j['destdir'],
                        'mechanism': j['mech'], 'initial_tree': j['init'], 'tags': j['runs'][0]['tags'], 'skip_subprojects': j['runs'][0]['skip'],
@@ -1536,6 +1553,14 @@ def main():
         ck.part('family_' + name, **f)
 
     ck.part('aborted_installs', **{k: tot[k] for k in COUNTERS if k.startswith(('fault', 'abort'))})
+    ck.part('implicit_tags', kinds_of_rule=len(M.GUESS_KINDS), directory_layouts=len(M.DIRSETS),
+            destination_directories=[len(M.guess_bases(ds, '', '/usr')) * len(M.GUESS_MIDS) for ds in M.DIRSETS],
+            tag_selections=len(M.DOC_TAGS) + 2, **{k: tot[k] for k in COUNTERS if k.startswith('guess_') or k == 'plan_guessed_tags'})
+    if 'G' in fam:
+        ck.require(not full_g(ck) or fam['G']['jobs'] >= len(M.GUESS_KINDS) * len(M.DIRSETS), 'a kind of rule x directory layout of the implicit-tag family is missing')
+        ck.require(not full_g(ck) or (tot['guess_cells_must'] > 500 and tot['guess_standard_dir_must'] > 500 and tot['guess_lookalike_left_out'] > 2000
+                                      and tot['guess_entries_one_tag'] > 200 and tot['guess_entries_untagged'] > 1000 and tot['plan_guessed_tags'] > 1000),
+                   'implicit install tags: standard directories / look-alike directories were not exercised under --tags')
     covered = set(r for rids in ABORT_PROJECTS for r in rids)
     ck.require(covered == set(M.RULE_IDS), 'ABORT_PROJECTS do not hold every rule variant: %s' % sorted(set(M.RULE_IDS) - covered))
     full = not ck.args.only and ck.n_viol == 0      # anti-vacuity applies to clean runs; a verdict is never turned into exit 2
@@ -1559,7 +1584,13 @@ def main():
               'install_umask=preserve; mode of a rule directory that existed before the install; tags of shared-library alias symlinks; '
               'content of the log written by --dry-run; whether a symlink copied as a link is re-created by --only-changed; what uninstall '
               'leaves after the log was rewritten by a later install / dry-run (only "removes exactly what the log names" is checked there); '
-              'absence of install_emptydir / install_symlink from the install plan')
+              'absence of install_emptydir / install_symlink from the install plan; implicit tags: an item in sbindir (the tag list names '
+              'bindir only), an install_emptydir directory inside a tagged directory ("this directory has no install tag" vs "files installed '
+              'into"), a destination to which two rules of the tag list apply with different tags (bin/installed-tests, lib/systemtap/x.so): '
+              'any of the documented candidates is accepted; install_subdir trees hold only files with an extension no tag rule mentions')
+    ck.assume('implicit install tags: "installed into <dir>" of Installing.md is read as path containment (the directory or one below it, also '
+              'when spelled as an absolute path below the prefix); "installed-tests / systemtap subdir" as a directory component of that name '
+              'anywhere above the item')
     ck.assume('runs as root: chown to uid/gid 0 is a no-op and setuid bits survive chmod')
     for k in COUNTERS:
         if k not in ('states', 'transitions'):
@@ -1572,7 +1603,11 @@ def main():
                    'cannot complete: on 3 multi-rule projects that together hold every rule variant, every entry of the model x {a directory '
                    'where the file/link goes, a file where the directory/link goes, a file where the implied parent directory goes, the source '
                    'or build product gone} -> install (must stop; partial tree within the plan; log names all it created) -> uninstall == '
-                   'pre-install tree, and -> obstacle removed -> install == undisturbed install. states = '
+                   'pre-install tree, and -> obstacle removed -> install == undisturbed install; implicit tags: every kind of rule that is tagged '
+                   'from its destination (install_data, install_subdir, install_emptydir, install_symlink, configure_file, custom_target with one / a '
+                   'list of install_dir) WITHOUT install_tag x 2 directory layouts x every destination directory of {standard directories, look-alike '
+                   'siblings, parents, namesakes elsewhere, absolute spellings inside and outside the prefix} x {itself, sub-directory, installed-tests, '
+                   'systemtap and look-alikes of these} x file extensions, installed with no --tags and with each single documented tag. states = '
                    'distinct DESTDIR trees per run, transitions = install/uninstall commands executed, every one compared with the model'
                    % (len(M.RULE_IDS),
                       'style x mode x umask x prefix x DESTDIR kind = 162 configurations' if ck.thorough else 'the 9 rows of a pairwise-covering orthogonal array over name style, install_mode, install_umask, DESTDIR kind; prefix / initial tree / DESTDIR mechanism alternate with the index',
